@@ -1,0 +1,63 @@
+//go:build verif
+
+// Machine-checked contracts for package internals (comment-only; compiled only with -tags verif).
+// Read by /verif/engine (govc). Obligation names are <pkg>.<Func>#<kind>:<label>.
+package internals
+
+//@ pool ExecCtxPool *ExecCtx
+//@ pool SchemaCtxPool *SchemaCtx
+//@ pool ZogIssuePool *ZogIssue
+//@ pool InternalIssueListPool *ErrsList
+//@ pool InternalIssueMapPool *ErrsMap
+
+//@ func NewExecCtx(errs, fmter)
+//@   modifies nothing
+//@   ensures[C07,C11] fmter_set: result.Fmter == fmter
+//@   ensures[C07] errors_set: result.Errors == errs
+//@   ensures[C07] m_reset: result.m == nil
+//@   ensures[C07] owned: isnew(result)
+
+//@ func (*ExecCtx).NewSchemaCtx(c, val, destPtr, path, dtype)
+//@   modifies nothing
+//@   ensures[C07,C12] exec: result.ExecCtx == c
+//@   ensures[C07] data: result.Data == val
+//@   ensures[C07] valptr: result.ValPtr == destPtr
+//@   ensures[C07] path: result.Path == path
+//@   ensures[C07] dtype: result.DType == dtype
+//@   ensures[C07,C05] cancatch_reset: !result.CanCatch
+//@   ensures[C07,C05] exit_reset: !result.Exit
+//@   ensures[C07] hascaught_reset: !result.HasCaught
+//@   ensures[C07] owned: isnew(result)
+
+//@ func (*ExecCtx).NewValidateSchemaCtx(c, valPtr, path, dtype)
+//@   modifies nothing
+//@   ensures[C07,C12] exec: result.ExecCtx == c
+//@   ensures[C07] data: result.Data == nil
+//@   ensures[C07] valptr: result.ValPtr == valPtr
+//@   ensures[C07] path: result.Path == path
+//@   ensures[C07] dtype: result.DType == dtype
+//@   ensures[C07,C05] cancatch_reset: !result.CanCatch
+//@   ensures[C07,C05] exit_reset: !result.Exit
+//@   ensures[C07] hascaught_reset: !result.HasCaught
+//@   ensures[C07] owned: isnew(result)
+
+//@ func NewZogIssue()
+//@   modifies nothing
+//@   ensures[C07] code: result.Code == ""
+//@   ensures[C07] path: result.Path == ""
+//@   ensures[C07] value: result.Value == nil
+//@   ensures[C07] dtype: result.Dtype == ""
+//@   ensures[C07] params: result.Params == nil
+//@   ensures[C07] message: result.Message == ""
+//@   ensures[C07] err: result.Err == nil
+//@   ensures[C07] owned: isnew(result)
+
+//@ func NewErrsList()
+//@   modifies nothing
+//@   ensures[C07,C02] list_reset: result.List == nil
+//@   ensures[C07] owned: isnew(result)
+
+//@ func NewErrsMap()
+//@   modifies nothing
+//@   ensures[C07,C02] map_reset: result.M == nil
+//@   ensures[C07] owned: isnew(result)
